@@ -966,9 +966,10 @@ make_task(echs_toid_t oid)
 }
 
 static void
-free_task(_task_t t)
+unhash_task(_task_t t)
 {
-/* hand task T over to free list */
+/* take task T off the table and release what it holds,
+ * the _task_s itself stays allocated */
 	/* free from our task hash table */
 	with (size_t i = get_task_slot(t->t->oid)) {
 		if (UNLIKELY(i >= ztask_ht || task_ht[i].oid != t->t->oid)) {
@@ -985,11 +986,27 @@ free_task(_task_t t)
 	if (LIKELY(t->dflt_cred.sh != NULL)) {
 		free(deconst(t->dflt_cred.sh));
 	}
+	t->dflt_cred.wd = t->dflt_cred.sh = NULL;
 	free_echs_task(t->t);
+	t->t = NULL;
+	return;
+}
 
+static void
+pool_task(_task_t t)
+{
+/* hand the _task_s T over to free list */
 	t->next = free_tasks;
 	free_tasks = t;
 	nfree_tasks++;
+	return;
+}
+
+static void
+free_task(_task_t t)
+{
+	unhash_task(t);
+	pool_task(t);
 	return;
 }
 
@@ -2207,7 +2224,13 @@ chld_cb(EV_P_ ev_child *c, int UNUSED(revents))
 	c->rpid = c->pid = 0;
 	t->nsim--;
 
-	if (UNLIKELY(t->w.reschedule_cb == NULL && !t->nsim)) {
+	if (UNLIKELY(t->t == NULL)) {
+		/* the task has been cancelled in the meantime, the last
+		 * child hands the _task_s back */
+		if (!t->nsim) {
+			pool_task(t);
+		}
+	} else if (UNLIKELY(t->w.reschedule_cb == NULL && !t->nsim)) {
 		/* we promised taskB_cb to kill this guy,
 		 * once the last of his children has gone */
 		unsched(EV_A_ &t->w, 0);
@@ -2611,7 +2634,13 @@ task update from user %d for task from user %d failed: permission denied",
 	/* otherwise proceed with the evacuation */
 	ECHS_NOTI_LOG("cancelling task 0x%x", oid);
 	ev_periodic_stop(EV_A_ &res->w);
-	free_task(res);
+	if (UNLIKELY(res->nsim)) {
+		/* child watchers still point to RES, keep the _task_s
+		 * until the last of them has reported back */
+		unhash_task(res);
+	} else {
+		free_task(res);
+	}
 	return 0;
 }
 
